@@ -295,15 +295,27 @@ fn dist_with(slot: usize, x: f64) -> Dist {
     Dist::new(dt, 0.0, 0.0)
 }
 
-/// where the adversarial distribution is placed
+/// where the adversarial distribution is placed: every position of a distribution in a state, alone
+/// and next to valid siblings
+pub const PLACES: usize = 13;
+
 fn place_dist(place: usize, d: Dist) -> (Option<Action>, (Option<Counter>, Option<Counter>)) {
+    let ok = base_dist();
+    let okc = Some(Counter::new_dist(Operation::Decrement, base_dist()));
     match place {
         0 => (Some(Action::SendPadding { bypass: false, replace: false, timeout: d, limit: None }), (None, None)),
-        1 => (Some(Action::SendPadding { bypass: false, replace: false, timeout: base_dist(), limit: Some(d) }), (None, None)),
-        2 => (Some(Action::BlockOutgoing { bypass: false, replace: false, timeout: base_dist(), duration: d, limit: None }), (None, None)),
+        1 => (Some(Action::SendPadding { bypass: false, replace: false, timeout: ok, limit: Some(d) }), (None, None)),
+        2 => (Some(Action::BlockOutgoing { bypass: false, replace: false, timeout: ok, duration: d, limit: None }), (None, None)),
         3 => (Some(Action::UpdateTimer { replace: false, duration: d, limit: None }), (None, None)),
         4 => (None, (Some(Counter::new_dist(Operation::Increment, d)), None)),
-        _ => (Some(Action::Cancel { timer: Timer::All }), (None, Some(Counter::new_dist(Operation::Set, d)))),
+        5 => (Some(Action::Cancel { timer: Timer::All }), (None, Some(Counter::new_dist(Operation::Set, d)))),
+        6 => (Some(Action::BlockOutgoing { bypass: true, replace: true, timeout: d, duration: ok, limit: Some(ok) }), (None, None)),
+        7 => (Some(Action::BlockOutgoing { bypass: true, replace: false, timeout: ok, duration: ok, limit: Some(d) }), (None, None)),
+        8 => (Some(Action::UpdateTimer { replace: true, duration: ok, limit: Some(d) }), (None, None)),
+        9 => (None, (okc, Some(Counter::new_dist(Operation::Set, d)))),
+        10 => (None, (Some(Counter::new_dist(Operation::Set, d)), okc)),
+        11 => (Some(Action::SendPadding { bypass: true, replace: true, timeout: ok, limit: Some(ok) }), (okc, Some(Counter::new_dist(Operation::Increment, d)))),
+        _ => (Some(Action::BlockOutgoing { bypass: false, replace: false, timeout: ok, duration: d, limit: Some(ok) }), (okc, okc)),
     }
 }
 
@@ -345,11 +357,17 @@ fn matrix() -> Vec<Candidate> {
     let mut v = vec![];
     let s64 = specials64();
     for slot in 0..=26usize {
-        for place in 0..6usize {
+        for place in 0..PLACES {
             for x in &s64 {
                 let (a, c) = place_dist(place, dist_with(slot, *x));
+                // in the only state of a machine, and in the last state of a three-state machine
                 let (mm, m) = mirror_of(0.5, 0.5, vec![(a, c, vec![(Event::NormalSent, vec![Trans(0, 1.0)])])]);
                 v.push(Candidate { desc: format!("dist slot {slot} placement {place} value {x:e}"), mirror: mm, machine: Some(m) });
+                if place % 2 == 1 {
+                    let plain = (None, (None, None), vec![(Event::NormalSent, vec![Trans(1, 1.0)])]);
+                    let (mm, m) = mirror_of(0.5, 0.5, vec![plain.clone(), plain, (a, c, vec![(Event::NormalRecv, vec![Trans(0, 1.0)])])]);
+                    v.push(Candidate { desc: format!("dist slot {slot} placement {place} in state 2 of 3, value {x:e}"), mirror: mm, machine: Some(m) });
+                }
             }
         }
     }
@@ -480,7 +498,7 @@ fn random_candidate(r: &mut Xo) -> Candidate {
     for _ in 0..n {
         let slot = r.below(27) as usize;
         let x = if r.chance(1, 2) { rand_special(r) } else { 1.0 + r.unit_f64() };
-        let (a, c) = place_dist(r.below(6) as usize, dist_with(slot, x));
+        let (a, c) = place_dist(r.below(PLACES as u64) as usize, dist_with(slot, x));
         let mut tv = vec![];
         for _ in 0..r.range(0, 3) {
             let e = *r.pick(&ALL_EVENTS);
@@ -533,7 +551,7 @@ impl Prop for C12 {
             out.extra.insert(
                 "matrix".into(),
                 json!({"numeric_slots": 29 + 3, "special_values_f64": specials64().len(), "special_values_f32": specials32().len(),
-                       "placements": 6, "objects": m.len(), "paths": ["Machine::validate", "Machine::new", "Framework::new", "Machine::from_str(serialize)", "Machine::from_str(bytes)"]}),
+                       "placements": PLACES, "objects": m.len(), "paths": ["Machine::validate", "Machine::new", "Framework::new", "Machine::from_str(serialize)", "Machine::from_str(bytes)"]}),
             );
         }
         let mut r = xo(cx.seed);
